@@ -62,6 +62,7 @@ type ResponderInterceptor struct {
 	streamsMu sync.Mutex
 
 	resendWg sync.WaitGroup
+	closed   bool
 }
 
 type localStream struct {
@@ -97,7 +98,9 @@ func (n *ResponderInterceptor) BindRTCPReader(reader interceptor.RTCPReader) int
 				continue
 			}
 
-			n.resendWg.Add(1)
+			if !n.startResend() {
+				continue
+			}
 			go func() {
 				defer n.resendWg.Done()
 				n.resendPackets(nack)
@@ -163,8 +166,22 @@ func (n *ResponderInterceptor) UnbindLocalStream(info *interceptor.StreamInfo) {
 }
 
 // Close releases all resources held by the ResponderInterceptor.
+// startResend accounts for one more retransmission goroutine, unless Close has
+// begun: Close waits for the accounted ones and must not be overtaken by new ones.
+func (n *ResponderInterceptor) startResend() bool {
+	n.streamsMu.Lock()
+	defer n.streamsMu.Unlock()
+	if n.closed {
+		return false
+	}
+	n.resendWg.Add(1)
+
+	return true
+}
+
 func (n *ResponderInterceptor) Close() error {
 	n.streamsMu.Lock()
+	n.closed = true
 	streams := n.streams
 	n.streams = map[uint32]*localStream{}
 	n.streamsMu.Unlock()
